@@ -122,7 +122,7 @@ func haveStrace() bool {
 	return err == nil
 }
 
-func c19Exec(dir, text string, variant []string, useStrace bool) c19Run {
+func c19Exec(dir, text string, variant []string, useStrace bool, prev string) c19Run {
 	in := filepath.Join(dir, "in.y")
 	outName := "out.go"
 	if variant[0] == "typescript" {
@@ -130,7 +130,7 @@ func c19Exec(dir, text string, variant []string, useStrace bool) c19Run {
 	}
 	out := filepath.Join(dir, outName)
 	os.WriteFile(in, []byte(text), 0644)
-	os.WriteFile(out, []byte(sentinel), 0644)
+	os.WriteFile(out, []byte(prev), 0644)
 	old := time.Date(2001, 2, 3, 4, 5, 6, 0, time.UTC)
 	os.Chtimes(out, old, old)
 	st0, _ := os.Stat(out)
@@ -174,7 +174,7 @@ func c19Exec(dir, text string, variant []string, useStrace bool) c19Run {
 	switch {
 	case err != nil || err1 != nil:
 		res.changed = "the file no longer exists"
-	case string(b) != sentinel:
+	case string(b) != prev:
 		res.changed = fmt.Sprintf("content changed (now %d bytes, starts %q)", len(b), trunc(string(b), 60))
 	case st1.Sys().(*syscall.Stat_t).Ino != ino0:
 		res.changed = "the file was replaced (different inode)"
@@ -198,7 +198,7 @@ func (p c19) Run(seed int64, tier string, idx int) Outcome {
 		o.count("strace_leg_skipped(no strace)", 1)
 	}
 	judge := func(what string, text string, variant []string, mustFail bool, epilogue string, nRules int) bool {
-		res := c19Exec(dir, text, variant, strace && (idx%2 == 0))
+		res := c19Exec(dir, text, variant, strace && (idx%2 == 0), sentinel)
 		o.count("eval:cli_runs", 1)
 		if res.straceRan {
 			o.count("runs_under_strace", 1)
@@ -249,6 +249,32 @@ func (p c19) Run(seed int64, tier string, idx int) Outcome {
 				if !seen[fmt.Sprint(k)] {
 					o.Status = "violated"
 					o.Detail = fmt.Sprintf("successful output lacks the case label of rule %d (incomplete file)", k)
+					return false
+				}
+			}
+		}
+		// regeneration over an earlier version of the output: (a) a file of exactly the same length that
+		// differs in one character of the epilogue or, without epilogue, of the last line; (b) the same
+		// output followed by the tail of a longer old file. Both must end up as the output just seen.
+		first := res.content
+		if len(first) > 0 {
+			b := []byte(first)
+			k := len(b) - 1
+			for k > 0 && (b[k] == '\n' || b[k] == ' ' || b[k] == '}') {
+				k--
+			}
+			if b[k] == 'x' {
+				b[k] = 'y'
+			} else {
+				b[k] = 'x'
+			}
+			for _, prev := range []string{string(b), first + strings.Repeat("// tail of a longer old file\n", 40)} {
+				again := c19Exec(dir, text, variant, false, prev)
+				o.count("eval:cli_runs", 1)
+				o.count("regenerations_over_an_older_output", 1)
+				if again.failed || again.content != first {
+					o.Status = "violated"
+					o.Detail = fmt.Sprintf("yaccgo generate %v over an older version of its output (%d bytes; new output %d bytes) left %d bytes that are not the complete new output (failed=%v, first difference %s)\ninput:\n%s", variant, len(prev), len(first), len(again.content), again.failed, firstDiff(again.content, first), text)
 					return false
 				}
 			}
